@@ -404,6 +404,18 @@ class Folder(object):
                 return dict(args[0])
             if n == 'len' and len(args) == 1:
                 return len(args[0])
+        if isinstance(func, Sym) and not args and not kwargs and \
+                func.module == self.module.name and \
+                func.name in self.module.functions:
+            # a parameterless function of the module whose body is one
+            # `return <expression>` (a table builder): fold the expression
+            fd = self.module.functions[func.name]
+            body = [st for st in fd.body if not (
+                isinstance(st, ast.Expr) and isinstance(
+                    st.value, ast.Constant))]
+            if len(body) == 1 and isinstance(body[0], ast.Return) and \
+                    body[0].value is not None and not fd.args.args:
+                return Folder(self.module, None).fold(body[0].value)
         if isinstance(func, Sym):
             return CallTerm(func, args, kwargs, node)
         if isinstance(func, CallTerm) and func.func.name == 'namedtuple' \
